@@ -1,5 +1,6 @@
 // mdlcheck.cc -- C10: the momentum-direction-lock operation only re-orients (rigid rotation into the requested cone).
 #include <cmath>
+#include <cstring>
 #include <iostream>
 #include <memory>
 #include <unistd.h>
@@ -71,8 +72,11 @@ static Case gen_case(uint64_t h);
 // configure the op for the case; when the case carries a prior configuration, apply that one first to the same object (no reset)
 static void setup_op_hist(MDL & op, const Case & c)
 {
-  if (c.prior) { Case p = gen_case(c.prior); p.prior = 0; try { setup_op(op, p); } catch (std::exception &) {} }
+  // a USED op object: configured with another generated configuration first, then (by c.prior % 3) configured again as it is / after reset() /
+  // after deactivate() - in every case it must behave like a new object with the configuration under test
+  if (c.prior) { Case p = gen_case(c.prior); p.prior = 0; try { setup_op(op, p); } catch (std::exception &) {} if (c.prior % 3 == 1) op.reset(); else if (c.prior % 3 == 2) op.deactivate(); }
   setup_op(op, c);
+  if (!op.is_active() || !op.is_valid()) throw std::runtime_error("HARNESS: op not active/valid after a successful set");
 }
 
 static void synth_event(bxdecay0::event & ev, uint64_t seed)
@@ -116,6 +120,17 @@ static bool in_cone(const Case & c, const V3 & u /*momentum*/, std::string & why
 
 static const size_t LIM = 200000;
 
+static bool bit_same_event(const bxdecay0::event & a, const bxdecay0::event & b, std::string & why)
+{
+  const auto & pa = a.get_particles(); const auto & pb = b.get_particles();
+  if (pa.size() != pb.size()) { why = "particle count"; return false; }
+  for (size_t i = 0; i < pa.size(); i++) {
+    double x[4] = {pa[i].get_px(), pa[i].get_py(), pa[i].get_pz(), pa[i].get_time()}, y[4] = {pb[i].get_px(), pb[i].get_py(), pb[i].get_pz(), pb[i].get_time()};
+    if (pa[i].get_code() != pb[i].get_code() || memcmp(x, y, sizeof x)) { why = "particle " + std::to_string(i); return false; }
+  }
+  return true;
+}
+
 static Res check_case(const Case & c)
 {
   Res r; auto fail = [&](const std::string & cls, const std::string & m) { if (r.ok) { r.ok = false; r.cls = cls; r.msg = m; } return r; };
@@ -129,6 +144,12 @@ static Res check_case(const Case & c)
   }
   if (c.synthetic) {
     synth_event(e0, c.evseed); e1 = e0;
+    if (c.opseed % 16 == 0) { // a deactivated operation passes the event through: nothing changes, no deviate is drawn, no target is reported
+      op->deactivate(); bxdecay0::event ei = e0; TapeRandom ri(tape, 0, LIM);
+      try { (*op)(ri, ei); } catch (std::exception & e) { return fail("inactive-op-throws", std::string("deactivated operation raised: ") + e.what()); }
+      std::string why; if (!bit_same_event(ei, e0, why) || ri.pos != 0 || op->get_last_target_index() != -1) return fail("inactive-op-acts", "a deactivated operation changed the event, drew deviates or reported a target: " + why);
+      op->activate();
+    }
     TapeRandom rr(tape, 0, LIM);
     bool threw = false; std::string what;
     try { (*op)(rr, e1); } catch (TapeOverrun &) { return fail("unbounded", "operation consumed more than " + std::to_string(LIM) + " deviates"); } catch (std::exception & e) { threw = true; what = e.what(); }
